@@ -366,6 +366,8 @@ func (resp *Response) Read(b *bufio.Reader) error {
 			}
 			var item Item
 			item.Body = []byte(parts[2])
+			// CleanBuffer uncounts every item of the reply: count this one too
+			cmem.DBRL.GetData.AddSizeAndCount(item.CArray.Cap)
 			resp.Items[parts[1]] = &item
 			continue
 
